@@ -1,6 +1,7 @@
 //! Drivers: each one runs the real code on generated inputs and writes trace batches.
 
 pub mod vmops;
+pub mod vmprog;
 
 use crate::jv::{self, J};
 use crate::Args;
@@ -9,6 +10,7 @@ use std::io::Write;
 pub fn dispatch(driver: &str, args: &Args) -> i32 {
     match driver {
         "vmops" => vmops::main(args),
+        "vmprog" => vmprog::main(args),
         _ => {
             eprintln!("unknown driver {driver}");
             2
@@ -23,6 +25,7 @@ pub struct Batcher {
     prefix: String,
     max_events: usize,
     cur: Vec<J>,
+    weight: usize,
     raw: Vec<String>,
     pub files: Vec<String>,
     pub runs: usize,
@@ -39,6 +42,7 @@ impl Batcher {
             prefix: prefix.to_string(),
             max_events,
             cur: vec![],
+            weight: 0,
             raw: vec![],
             files: vec![],
             runs: 0,
@@ -58,8 +62,16 @@ impl Batcher {
             self.samples.push(serde_json::json!({"label": label, "case": raw.clone()}));
         }
         self.raw.push(serde_json::json!({"label": label, "case": raw}).to_string());
+        fn weight(j: &J) -> usize {
+            match j {
+                J::A(xs) => 1 + xs.iter().map(weight).sum::<usize>(),
+                J::O(kv) => 1 + kv.iter().map(|(_, v)| weight(v)).sum::<usize>(),
+                _ => 1,
+            }
+        }
+        self.weight += events.iter().map(weight).sum::<usize>();
         self.cur.extend(events);
-        if self.cur.len() >= self.max_events {
+        if self.cur.len() >= self.max_events || self.weight > 6_000_000 {
             self.flush();
         }
     }
@@ -76,6 +88,7 @@ impl Batcher {
         self.files.push(path);
         self.cur.clear();
         self.raw.clear();
+        self.weight = 0;
     }
     pub fn finish(mut self, extra: serde_json::Value) -> i32 {
         self.flush();
